@@ -1,7 +1,7 @@
 """C01 -- every stored sample belongs to exactly one shell: its own."""
 from ..rowfacts import rule_M3, rule_M4, rule_M5
 from ..intervals import rule_M6
-from ..sampler_rules import rule_L1_sampler, rule_L2_move, rule_L3_L4
+from ..sampler_rules import rule_L1_sampler, rule_L2_move, rule_L3_L4, rule_M7
 from ..agree import rule_A5, rule_Q3
 from ..effects import rule_F6
 from ..pathrules import rule_T8i
@@ -22,6 +22,7 @@ def run(ctx):
     rule_L1_sampler(ctx, {'rows', 't'})
     rule_L3_L4(ctx)
     rule_A5(ctx)
+    rule_M7(ctx)
     rule_Q3(ctx)
     rule_T8i(ctx)
     rule_M3(ctx)
